@@ -585,6 +585,15 @@ int main(int argc, char** argv) {
 	TS.init(g_maxlen, g_last_alpha);
 	KS.init(g_kindlen, g_kindlen == g_maxlen ? g_last_alpha : std::vector<int>());
 	LF = long_family(true);
+	// structured family "whatever precedes the textures folder goes": X + "\textures\" + Y for every token string X of
+	// length 1..3 and Y in {"", "a"}; appended to the long family (texture-set slots, all configurations)
+	const size_t prefix_family_begin = LF.size();
+	{
+		TokenSpace PS;
+		PS.init(3, {});
+		for (uint64_t g = 1; g < PS.total(); g++)
+			for (const char* y : {"", "a"}) LF.push_back(PS.at(g) + "\\textures\\" + y);
+	}
 	const bool with_long = A.geti("long", 1) != 0;
 
 	vf::PoolCfg pc;
@@ -644,7 +653,8 @@ int main(int argc, char** argv) {
 	std::vector<Unit> units;
 	if (with_long) {
 		// members longer than 64 bytes: texture-set slots only, small batches (regex time grows with the length)
-		for (uint64_t a = 510; a < LF.size(); a += 6) units.push_back({'L', a, std::min<uint64_t>(a + 6, LF.size()), false});
+		for (uint64_t a = 510; a < prefix_family_begin; a += 6) units.push_back({'L', a, std::min<uint64_t>(a + 6, prefix_family_begin), false});
+		for (uint64_t a = prefix_family_begin; a < LF.size(); a += 60) units.push_back({'L', a, std::min<uint64_t>(a + 60, LF.size()), false});
 		for (uint64_t a = 0; a < 510; a += 15) units.push_back({'L', a, std::min<uint64_t>(a + 15, 510), true});
 	}
 	for (uint64_t a = 0; a < KS.total(); a += kchunk) units.push_back({'K', a, std::min(a + kchunk, KS.total()), true});
@@ -712,7 +722,8 @@ int main(int argc, char** argv) {
 		vf::strf("every string that is a sequence of <= %d tokens from {%s}%s (%llu strings, length-lexicographic order) in a texture-set slot of the lighting "
 				 "shader CreateShapeFromData attaches; every such string of <= %d tokens (%llu strings) in each of the 5 BSEffectShaderProperty strings and in each of "
 				 "the 10 NiTexturingProperty->NiSourceTexture slots; long-path family: every byte 1..255 repeated 1, 64, 1024, 4096 times and the 6 alternations of two "
-				 "different tokens from {\\ a /} with 4096 tokens (%zu strings; members > 64 bytes only in texture-set slots); each x versions {OB 20.0.0.5, special "
+				 "different tokens from {\\ a /} with 4096 tokens, plus X + \\textures\\ + Y for every token string X of length 1..3 and Y in {empty, a} (%zu strings; members > 64 bytes and "
+				 "the X-textures-Y members only in texture-set slots); each x versions {OB 20.0.0.5, special "
 				 "10.0.1.0/0, FO3, SK, SSE, FO4} x terrain {false,true}. Per model: Save(raw) before clean-up, TrimTexturePaths twice, Load of the saved bytes with the "
 				 "same terrain flag (only for slot kinds the version serialises). evaluation = one (path, version, terrain, slot) case; distinct_nontrivial = distinct "
 				 "path strings (by value) that the clean-up changes in at least one configuration; distinct_outputs = distinct cleaned strings by value",
